@@ -41,7 +41,8 @@ class DictSub(dict):
 JSON_KINDS = [("null", None), ("true", True), ("zero", 0), ("one", 1), ("minus1", -1), ("huge", 2 ** 70), ("frac", 1.5), ("intfloat", 1.0),
               ("inf", INF), ("neginf", -INF), ("nan", float("nan")), ("e308", 1e308), ("empty_str", ""), ("str", "x"),
               ("empty_list", []), ("list", ["x"]), ("empty_dict", {}), ("dict", {"x": "x"}), ("deep100", deep(100)),
-              ("nonascii", "ключ é"), ("surrogate", "\ud800")]
+              ("nonascii", "ключ é"), ("surrogate", "\ud800"), ("int400", 10 ** 400), ("negint400", -(10 ** 400)), ("float300", 1e300),
+              ("int_2_53", 2 ** 53 + 1)]
 PY_KINDS = [("bytes", b"ab" * 32), ("bytearray", bytearray(b"ab")), ("tuple", ("x",)), ("set", {"x"}), ("frozenset", frozenset({"x"})),
             ("complex", 1j), ("decimal", decimal.Decimal("1")), ("fraction", fractions.Fraction(1, 1)), ("object", object()),
             ("strsub", StrSub("ab" * 32)), ("intsub", IntSub(1)), ("dictsub", DictSub()), ("timedelta", datetime.timedelta(1))]
@@ -108,12 +109,17 @@ def fixtures(seed):
     e_root1 = {"signatures": gsign(root1, [1, 2]), "signed": root1}
     e_root2 = {"signatures": gsign(root2, [1, 2]), "signed": root2}
     e_km = {"signatures": rsign(km, [3]), "signed": km}
+    root2f = dict(root2, version=2.0)
+    e_root2f = {"signatures": gsign(root2f, [1, 2]), "signed": root2f}
+    root1h, root2h = dict(root1, version=10 ** 400), dict(root2, version=10 ** 400 + 1)
+    e_root1h = {"signatures": gsign(root1h, [1, 2]), "signed": root1h}
+    e_root2h = {"signatures": gsign(root2h, [1, 2]), "signed": root2h}
     payload = {"name": "pkg", "version": "1.0", "depends": ["a", "b"], "size": 3}
     e_pkg = {"signatures": rsign(payload, [1]), "signed": payload}
     data = twin_canon(payload)
     rawsig = keys.sign(1, data).hex()
     gsig = {"other_headers": hdr.hex(), "signature": keys.sign(1, crypto.gpg_digest(data, hdr)).hex()}
-    return {"keys": keys, "pubs": pubs, "e_root1": e_root1, "e_root2": e_root2, "e_km": e_km, "e_pkg": e_pkg, "data": data,
+    return {"keys": keys, "pubs": pubs, "e_root1": e_root1, "e_root2": e_root2, "e_root2f": e_root2f, "e_root1h": e_root1h, "e_root2h": e_root2h, "e_km": e_km, "e_pkg": e_pkg, "data": data,
             "rawsig": rawsig, "gsig": gsig}
 
 
@@ -128,6 +134,8 @@ def api_table(fx):
         "verify_delegation:pkg": (a.verify_delegation, ["pkg_mgr", fx["e_pkg"], fx["e_km"], False]),
         "verify_delegation:gpg": (a.verify_delegation, ["root", fx["e_root2"], fx["e_root1"], True]),
         "verify_root": (a.verify_root, [fx["e_root1"], fx["e_root2"]]),
+        "verify_root:floatver": (a.verify_root, [fx["e_root1"], fx["e_root2f"]]),      # offered version given as an integral float (unspecified class)
+        "verify_root:hugever": (a.verify_root, [fx["e_root1h"], fx["e_root2h"]]),      # versions beyond float range
         "verify_signature": (a.verify_signature, [fx["rawsig"], pub_obj, fx["data"]]),
         "verify_gpg_signature": (a.verify_gpg_signature, [fx["gsig"], fx["pubs"][0], fx["data"]]),
         "checkformat_delegating_metadata": (c.checkformat_delegating_metadata, [fx["e_root1"]]),
